@@ -208,4 +208,222 @@ theorem token_entry_stable (cfg : Cfg) (sha : String → String) (hchk : cfg.emp
     · rw [hput]
       exact Store.find_put_ne _ _ _ _ _ _ (fun e => by have := tokName_inj _ _ e; omega)
 
+/-! ### the s2s nonce store over histories -/
+
+theorem createAccessToken_other (cfg : Cfg) (w : World) (now : Nat) (issuer clientId scope : String) (c : Consumer)
+    (dpop : Option DPoP) :
+    (createAccessToken cfg w now issuer clientId scope c dpop).1.s2sNonces = w.s2sNonces ∧
+    (createAccessToken cfg w now issuer clientId scope c dpop).1.codes = w.codes ∧
+    (createAccessToken cfg w now issuer clientId scope c dpop).1.nextCode = w.nextCode := by
+  unfold createAccessToken
+  split <;> exact ⟨rfl, rfl, rfl⟩
+
+/-- the s2s nonce store after a vp_token-bearer request is the old one or the result of the nonce loop -/
+theorem issueS2S_nonces (cfg : Cfg) (w : World) (t : Nat) (r : S2SReq) :
+    (issueS2S cfg w t r).1.s2sNonces = w.s2sNonces ∨
+    (issueS2S cfg w t r).1.s2sNonces = (s2sNonceLoop cfg t r.vps w.s2sNonces).1 := by
+  unfold issueS2S
+  repeat' (first
+    | exact Or.inl rfl
+    | split
+    | simp only)
+  all_goals
+    right
+    first
+    | (rw [‹s2sNonceLoop cfg t r.vps w.s2sNonces = _›]; done)
+    | (rw [(createAccessToken_other _ _ _ _ _ _ _ _).1, ‹s2sNonceLoop cfg t r.vps w.s2sNonces = _›]; done)
+
+theorem issueCode_nonces (cfg : Cfg) (sha : String → String) (w : World) (t : Nat) (r : CodeReq) :
+    (issueCode cfg sha w t r).1.s2sNonces = w.s2sNonces := by
+  unfold issueCode
+  repeat' (first
+    | rfl
+    | (rename_i w2 _ hcreate
+       have := congrArg Prod.fst hcreate
+       simp only at this
+       rw [← this, (createAccessToken_other _ _ _ _ _ _ _ _).1])
+    | split
+    | simp only)
+
+/-- no operation at a time `t` with `bound ≤ t + ttl` makes the server forget a nonce it remembers until `bound` -/
+theorem step_live (cfg : Cfg) (sha : String → String) (httl : cfg.nonceTtl ≠ 0) (w : World) (t : Nat) (op : Op)
+    (n : String) (b : Nat) (hb : b ≤ t + cfg.nonceTtl) (h : Live w.s2sNonces n b) :
+    Live (step cfg sha w t op).1.s2sNonces n b := by
+  cases op with
+  | s2s r =>
+    simp only [step]
+    rcases issueS2S_nonces cfg w t r with h1 | h1
+    · rw [h1]; exact h
+    · rw [h1]; exact nonceLoop_live cfg t httl n b hb r.vps _ h
+  | auth r => simp only [step]; rw [(authorizeResponse_frame cfg w t r).2.2]; exact h
+  | code r => simp only [step]; rw [issueCode_nonces]; exact h
+  | seed state nonce session => exact h
+
+theorem after_live (cfg : Cfg) (sha : String → String) (httl : cfg.nonceTtl ≠ 0) (n : String) (b : Nat) :
+    ∀ (hist : List (Nat × Op)) (w : World), (∀ x ∈ hist, b ≤ x.1 + cfg.nonceTtl) → Live w.s2sNonces n b →
+      Live (after cfg sha hist w).s2sNonces n b := by
+  intro hist
+  induction hist with
+  | nil => intro w _ h; simpa [after, run] using h
+  | cons x rest ih =>
+    obtain ⟨t, op⟩ := x
+    intro w ht h
+    rw [after_cons]
+    exact ih _ (fun y hy => ht y (List.mem_cons_of_mem _ hy)) (step_live cfg sha httl w t op n b (ht (t, op) List.mem_cons_self) h)
+
+/-- a request that carries a nonce the server still remembers gets no token -/
+theorem issueS2S_rejects_live (cfg : Cfg) (w : World) (t : Nat) (r : S2SReq) (hchk : cfg.emptyVpChecked = true)
+    (httl : cfg.nonceTtl ≠ 0) (hwf : ∀ vp ∈ r.vps, vp.signer ≠ some "") (vp : VP) (hvp : vp ∈ r.vps) (b : Nat)
+    (hlive : Live w.s2sNonces vp.nonce b) (ht : t ≤ b) : ∀ resp, (issueS2S cfg w t r).2 ≠ .ok resp := by
+  intro resp hok
+  have h : issueS2S cfg w t r = ((issueS2S cfg w t r).1, .ok resp) := by rw [← hok]
+  obtain ⟨s, d, hc, _⟩ := issueS2S_ok cfg w _ t r resp hchk httl hwf h
+  have := (hc.nonce vp hvp).2
+  rw [hlive.get ht] at this
+  cases this
+
+/-! ### authorization codes over histories; issued tokens stay -/
+
+/-- the authorization code `c` is not in the store and can never be issued again -/
+def CodeGone (w : World) (c : String) : Prop := w.codes.find c = none ∧ ∃ n, c = codeName n ∧ n < w.nextCode
+
+theorem find_del_none {α : Type} (s : Store α) (k k' : String) (h : s.find k = none) : (s.del k').find k = none := by
+  by_cases hk : k' = k
+  · subst hk; exact Store.find_del_same s k'
+  · rw [Store.find_del_ne s k k' hk]; exact h
+
+theorem gad_find_none {α : Type} (s : Store α) (t : Nat) (k c : String) (h : s.find c = none) :
+    (s.getAndDelete t k).2.find c = none := by
+  unfold Store.getAndDelete
+  split
+  · exact find_del_none _ _ _ h
+  · exact h
+
+theorem issueCode_codes (cfg : Cfg) (sha : String → String) (w : World) (t : Nat) (r : CodeReq) (c : String)
+    (h : w.codes.find c = none) :
+    (issueCode cfg sha w t r).1.codes.find c = none ∧ (issueCode cfg sha w t r).1.nextCode = w.nextCode := by
+  unfold issueCode
+  repeat' (first
+    | exact ⟨h, rfl⟩
+    | exact ⟨find_del_none _ _ _ h, rfl⟩
+    | split
+    | simp only)
+  all_goals
+    have hcs := congrArg Prod.snd ‹w.codes.getAndDelete t _ = _›
+    simp only at hcs
+    subst hcs
+    first
+    | exact ⟨find_del_none _ _ _ (gad_find_none _ _ _ _ h), trivial⟩
+    | (rename_i w2 _ hcreate
+       have hw2 := congrArg Prod.fst hcreate
+       simp only at hw2
+       rw [← hw2, (createAccessToken_other _ _ _ _ _ _ _ _).2.1, (createAccessToken_other _ _ _ _ _ _ _ _).2.2]
+       exact ⟨find_del_none _ _ _ (gad_find_none _ _ _ _ h), rfl⟩)
+
+/-- the authorize-response handler changes the code store only by storing a code under the next name -/
+theorem authorizeResponse_codes (cfg : Cfg) (w : World) (t : Nat) (r : AuthResp) :
+    ((authorizeResponse cfg w t r).1.codes = w.codes ∧ (authorizeResponse cfg w t r).1.nextCode = w.nextCode) ∨
+    (∃ s, (authorizeResponse cfg w t r).1.codes = w.codes.put t cfg.codeTtl (codeName w.nextCode) s ∧
+      (authorizeResponse cfg w t r).1.nextCode = w.nextCode + 1) := by
+  unfold authorizeResponse
+  repeat' (first
+    | exact Or.inl ⟨rfl, rfl⟩
+    | exact Or.inr ⟨_, rfl, rfl⟩
+    | split
+    | simp only)
+
+theorem step_codeGone (cfg : Cfg) (sha : String → String) (w : World) (t : Nat) (op : Op) (c : String)
+    (h : CodeGone w c) : CodeGone (step cfg sha w t op).1 c := by
+  obtain ⟨hf, n, hn, hlt⟩ := h
+  cases op with
+  | s2s r =>
+    simp only [step]
+    rcases issueS2S_frame cfg w t r with ⟨resp, hr⟩ | hfr
+    · -- a token was issued: createAccessToken does not touch the codes
+      have : (issueS2S cfg w t r).1.codes = w.codes ∧ (issueS2S cfg w t r).1.nextCode = w.nextCode := by
+        unfold issueS2S
+        repeat' (first
+          | exact ⟨rfl, rfl⟩
+          | exact ⟨(createAccessToken_other _ _ _ _ _ _ _ _).2.1, (createAccessToken_other _ _ _ _ _ _ _ _).2.2⟩
+          | split
+          | simp only)
+      exact ⟨by rw [this.1]; exact hf, n, hn, by rw [this.2]; exact hlt⟩
+    · exact ⟨by rw [hfr.2.2.1]; exact hf, n, hn, by rw [hfr.2.2.2]; exact hlt⟩
+  | auth r =>
+    simp only [step]
+    rcases authorizeResponse_codes cfg w t r with ⟨h1, h2⟩ | ⟨s, h1, h2⟩
+    · exact ⟨by rw [h1]; exact hf, n, hn, by rw [h2]; exact hlt⟩
+    · refine ⟨?_, n, hn, by rw [h2]; omega⟩
+      rw [h1, Store.find_put_ne _ _ _ _ _ _ (fun e => by rw [hn] at e; have := codeName_inj _ _ e; omega)]
+      exact hf
+  | code r =>
+    simp only [step]
+    obtain ⟨h1, h2⟩ := issueCode_codes cfg sha w t r c hf
+    exact ⟨h1, n, hn, by rw [h2]; exact hlt⟩
+  | seed state nonce session => exact ⟨hf, n, hn, hlt⟩
+
+theorem after_codeGone (cfg : Cfg) (sha : String → String) (c : String) :
+    ∀ (hist : List (Nat × Op)) (w : World), CodeGone w c → CodeGone (after cfg sha hist w) c := by
+  intro hist
+  induction hist with
+  | nil => intro w h; simpa [after, run] using h
+  | cons x rest ih =>
+    obtain ⟨t, op⟩ := x
+    intro w h
+    rw [after_cons]
+    exact ih _ (step_codeGone cfg sha w t op c h)
+
+/-- a code that is gone buys no token -/
+theorem issueCode_rejects_gone (cfg : Cfg) (sha : String → String) (w : World) (t : Nat) (r : CodeReq) (c : String)
+    (hc : r.code = some c) (h : w.codes.find c = none) : ∀ resp, (issueCode cfg sha w t r).2 ≠ .ok resp := by
+  intro resp hok
+  have hh : issueCode cfg sha w t r = ((issueCode cfg sha w t r).1, .ok resp) := by rw [← hok]
+  obtain ⟨code, verifier, session, hchk, _⟩ := issueCode_ok cfg sha w _ t r resp hh
+  have : code = c := by have := hchk.codeGiven; rw [hc] at this; exact (Option.some.inj this).symm
+  subst this
+  have := hchk.known
+  simp [Store.get, h] at this
+
+theorem after_tokKeys (cfg : Cfg) (sha : String → String) (hchk : cfg.emptyVpChecked = true) (httl : cfg.nonceTtl ≠ 0) :
+    ∀ (hist : List (Nat × Op)) (w : World), HistWF hist → TokKeys w → TokKeys (after cfg sha hist w) := by
+  intro hist
+  induction hist with
+  | nil => intro w _ h; simpa [after, run] using h
+  | cons x rest ih =>
+    obtain ⟨t, op⟩ := x
+    intro w hwf h
+    rw [after_cons]
+    exact ih _ (fun t' r hm => hwf t' r (List.mem_cons_of_mem _ hm))
+      (tokKeys_step cfg sha hchk httl w t op (fun r hr vp hvp => hwf t r (by rw [hr]; exact List.mem_cons_self) vp hvp) h).1
+
+theorem tokKeys_empty : TokKeys {} := by
+  intro k ⟨e, he⟩; cases he
+
+theorem tokName_ne_empty (n : Nat) : tokName n ≠ "" := by
+  unfold tokName
+  intro h
+  have := congrArg String.length h
+  simp at this
+
+/-- once issued, the record stays retrievable under its name exactly until its store entry expires, whatever
+    happens afterwards -/
+theorem issued_token_stays (cfg : Cfg) (sha : String → String) (hchk : cfg.emptyVpChecked = true)
+    (httl : cfg.nonceTtl ≠ 0) (httl' : cfg.tokenTtl ≠ 0)
+    (pre post : List (Nat × Op)) (t : Nat) (op : Op) (name : String) (rec : TokenRec)
+    (hwf : HistWF (pre ++ (t, op) :: post))
+    (hiss : Issued cfg sha (after cfg sha pre {}) t op name rec) (now : Nat) :
+    (after cfg sha (pre ++ (t, op) :: post) {}).tokens.get now name =
+      if now ≤ t + cfg.tokenTtl then some rec else none := by
+  obtain ⟨resp, _, _, hname, hput, hnext, _, _⟩ := hiss
+  have hwfpre : HistWF pre := fun t' r hm => hwf t' r (List.mem_append_left _ hm)
+  have hwfpost : HistWF post := fun t' r hm => hwf t' r (List.mem_append_right _ (List.mem_cons_of_mem _ hm))
+  have hwf0 : ∀ r, op = .s2s r → ∀ vp ∈ r.vps, vp.signer ≠ some "" :=
+    fun r hr vp hvp => hwf t r (by rw [hr]; exact List.mem_append_right _ List.mem_cons_self) vp hvp
+  have hk0 := after_tokKeys cfg sha hchk httl pre {} hwfpre tokKeys_empty
+  have hk1 := (tokKeys_step cfg sha hchk httl _ t op hwf0 hk0).1
+  rw [after_append, after_cons]
+  have hstable := token_entry_stable cfg sha hchk httl post _ hwfpost hk1 (after cfg sha pre {}).nextTok (by rw [hnext]; omega)
+  rw [← hname] at hstable
+  simp only [Store.get, hstable, hput, Store.find_put_same _ _ _ _ _ httl']
+
 end Nuts.C02
